@@ -3,3 +3,4 @@
 #![allow(dead_code, unused)]
 pub mod dispatch;
 pub mod parsing;
+pub mod loops;
